@@ -1,8 +1,8 @@
 #!/verif/.venv/bin/python
 # Replay of a solver counterexample against the unmodified code (no shims).
-# property=C13 kernel=history label=typestate:SLM
+# property=C13 kernel=history label=state:declared_id_not_available
 import sys
 sys.path[:0] = ['/repo' + "/pulser-core", '/repo' + "/pulser-simulation", "/verif"]
 from symx.replay import replay
-sys.exit(replay(check='checks.c13', kernel='history', shape={'device': 'mock', 'k': 2, 'first': 1, 'prefix': ['D_g', 'ADD_g']},
-                assignment={'op3': 6}, label='typestate:SLM'))
+sys.exit(replay(check='checks.c13', kernel='history', shape={'device': 'mock_noreuse', 'k': 2, 'first': 12, 'prefix': []},
+                assignment={'op1': 4}, label='state:declared_id_not_available'))
